@@ -260,6 +260,14 @@ fn main() {
         "replay" => cmd_replay(&m),
         "sched" => sched_run::cmd_sched(&m),
         "miri" => miri_run::cmd_miri(&m),
+        "pools" => {
+            let p = spool::spools();
+            println!("points: g1 {} ({} in subgroup), g2 {} ({} in subgroup); scalars: {}", p.g1.len(), p.g1_nsub, p.g2.len(), p.g2_nsub, p.scalars.len());
+            for (i, s) in p.scalars.iter().enumerate() {
+                println!("  k{:<3} {:<28} {:016x}{:016x}{:016x}{:016x}{}", i, s.name, s.l[3], s.l[2], s.l[1], s.l[0], if s.lt255 { "" } else { "  (>= 2^255: plain and table paths only)" });
+            }
+            0
+        }
         other => harness_error(&format!("unknown command {}", other)),
     };
     std::process::exit(code)
